@@ -109,7 +109,8 @@ def budget_for(M, R, prog):
     # emulator: per static gate ~ 2^n * (20 + 2^k*15) lines; discover/serialise per
     # subcircuit ~ nodes*40; trace walk per visit ~ nodes*40; passes+parse ~ nodes*400
     est = static_gates * (2**n) * 160 + subs * nodes * 60 + visits * nodes * 60 + nodes * 600
-    return 40 * est + 200000
+    # measured on 400 clean runs: all operations of a run together use at most 4.6 x est
+    return 10 * est + 100000
 
 
 class V(list):
